@@ -2,6 +2,8 @@
 # Build the framework from files on disk only (offline).  Idempotent.
 set -e
 cd "$(dirname "$0")"
+# a restore may run this with another HOME: pin the toolchain homes of this image
+. ./tools/env.sh
 export CARGO_NET_OFFLINE=true
 mkdir -p .work evidence replays
 (cd translator && cargo build --offline --release --target-dir ../.work/target/translator)
@@ -25,5 +27,11 @@ for cfg in PROPS.values():
 print(" ".join(sorted(t)))
 PY
 )
-(cd lean && lake build $TARGETS)
-(cd harness && cargo build --offline --bins)
+# one target that does not build must not keep the other properties from being checked: each
+# ./check <ID> rebuilds what it needs and reports its own failure
+(cd lean && lake build $TARGETS) || {
+  for t in $TARGETS; do
+    (cd lean && lake build "$t" >/dev/null 2>&1) || echo "setup: lean target $t does not build (its check will report it)"
+  done
+}
+(cd harness && cargo build --offline --bins) || echo "setup: harness does not build completely (the checks will report it)"
